@@ -3,3 +3,7 @@ from . import memmap
 
 def main(tier):
     return memmap.main("C18", tier)
+
+
+def replay(path):
+    return memmap.replay(path)
